@@ -723,11 +723,16 @@ func c02ForwardedPath(t *testing.T, rep *vfReport) bool {
 	client := cluster.NewClient(c02Dialer{}, 5*time.Second)
 	var clock atomic.Int64
 	var ops []c02Op
+	term0 := n0.S.raft.CurrentTerm()
+	diag := func() string {
+		return fmt.Sprintf("n0: state=%v term=%d (was %d) lastContact-of-follower=%s ago; follower: state=%v term=%d leader=%q",
+			n0.S.raft.State(), n0.S.raft.CurrentTerm(), term0, time.Since(f.S.raft.LastContact()).Round(time.Millisecond), f.S.raft.State(), f.S.raft.CurrentTerm(), func() string { a, _ := f.S.LeaderAddr(); return a }())
+	}
 	write := func(v int64) bool {
 		op := c02Op{kind: "w", key: 0, val: v, inv: clock.Add(1), node: n0.Name}
 		ok, _, err := c02Write(n0.S, 0, v)
 		if !ok {
-			rep.Note("forwarded path: write failed: %v", err)
+			rep.Note("forwarded path: write failed: %v [%s]", err, diag())
 			return false
 		}
 		op.resp = clock.Add(1)
@@ -780,7 +785,7 @@ func c02ForwardedPath(t *testing.T, rep *vfReport) bool {
 	// a strong read straight on the leader queues behind the slow one in the FSM: when it returns,
 	// the slow one has been answered
 	if _, _, err := clu8Query(n0.S, "SELECT 1", proto.ConsistencyLevel_STRONG, 0); err != nil {
-		rep.Note("forwarded path: barrier read failed: %v (n0 leader=%v state=%v term=%d; follower leader=%v term=%d)", err, n0.S.IsLeader(), n0.S.raft.State(), n0.S.raft.CurrentTerm(), f.S.IsLeader(), f.S.raft.CurrentTerm())
+		rep.Note("forwarded path: barrier read failed: %v [%s]", err, diag())
 	}
 	time.Sleep(200 * time.Millisecond)
 	if !write(2) {
@@ -836,6 +841,19 @@ func c02SelfTest(t *testing.T, rep *vfReport) {
 	lines = append(lines, "check 0,1,2", "check 1,0,2")
 	want := []string{"ok", "ok", "ok", "ok", "ok", "true", "false", "false", "ok", "ok", "ok", "ok", "false", "false"}
 	rep.vfCompare("linz", lines, want, nil)
+}
+
+// TestVerifC02FwdLoop repeats the forwarded-path scenario (diagnostic; run by hand)
+func TestVerifC02FwdLoop(t *testing.T) {
+	if os.Getenv("C02_FWD_LOOP") == "" {
+		t.Skip()
+	}
+	rep := vfNewReport("C02", "diagnostic loop")
+	defer rep.Write()
+	for i := 0; i < 25; i++ {
+		ok := c02ForwardedPath(t, rep)
+		fmt.Printf("C02FWD run %d -> %v\n", i, ok)
+	}
 }
 
 func TestVerifC02(t *testing.T) {
